@@ -155,6 +155,7 @@ type FnGen struct {
 type stackCell struct {
 	ref *Term
 	ty  types.Type
+	src ssa.Value // the Alloc (or closure free variable) the cell belongs to
 }
 
 func (fg *FnGen) note(s string) { fg.notes[s] = true }
@@ -388,7 +389,11 @@ func (fg *FnGen) havocSet(st *State, names map[string]bool) *State {
 func (fg *FnGen) fieldVar(structT types.Type, st *types.Struct, idx int) (string, string) {
 	name := fg.g.ti.structName(structT, st)
 	f := st.Field(idx)
-	return fg.known("H:"+name+"."+f.Name(), ArraySort(SInt, fg.g.ti.sortOf(f.Type())))
+	fname := f.Name()
+	if fname == "_" {
+		fname = fmt.Sprintf("_%d", idx) // blank fields of one struct are distinct locations
+	}
+	return fg.known("H:"+name+"."+fname, ArraySort(SInt, fg.g.ti.sortOf(f.Type())))
 }
 
 // known records the sort of a heap variable as soon as it is named (write-set computations name variables before any
@@ -746,6 +751,7 @@ func (fg *FnGen) enterLoop(fr *Frame, li *loopInfo, st *State) *State {
 	if all {
 		g := fg.newGen(&genInfo{kind: "partial", all: true, parent: st, set: set})
 		hst = &State{gen: g, over: map[string]*Term{}}
+		fg.preserveAcrossHavoc(st, hst, fr.reach[h], li)
 	} else {
 		hst = fg.havocSet(st, set)
 		// writes rooted at allocations made inside the loop leave every object that existed at loop entry unchanged
